@@ -280,4 +280,29 @@ C13_Holds(c, in, o) ==
   CASE c = "accessible-iff-requested" -> o.compiled = Accessible(in.vis, in.def, in.from, in.samecrate)
     [] c = "rejected-for-privacy"     -> ~o.compiled /\ ~Accessible(in.vis, in.def, in.from, in.samecrate) => o.privacyonly
 C13_Fail(in, o) == { c \in C13_Conj : ~C13_Holds(c, in, o) }
+
+(***************************************************************************)
+(* C12  Async methods: exact Output type, Send by default, opt-out         *)
+(*      honoured; async_trait re-applied.                                  *)
+(*  in : [nosend (`?Send` given), asynctrait (an async_trait attribute     *)
+(*        below entrait), rettext: the declared return type ("()" when     *)
+(*        omitted)]                                                        *)
+(*  o  : compile witnesses (V): w_output (the future's Output is exactly   *)
+(*       the declared type), w_send (a generic caller may require Send),   *)
+(*       w_nonsend_body (a body holding a !Send value across an await),    *)
+(*       and the projected trait (X): kept_async, futout, futsend,         *)
+(*       attr_on_trait, attr_on_impls, dyn_requested                       *)
+(***************************************************************************)
+C12_Conj == {"output-exact", "output-exact-tokens", "send-by-default", "send-is-required", "optout-honoured", "async-trait-kept-and-reapplied", "compiles"}
+C12_Holds(c, in, o) ==
+  CASE c = "compiles"            -> o.base_compiles
+    [] c = "output-exact"        -> o.w_output
+    [] c = "output-exact-tokens" -> ~in.asynctrait /\ o.expanded => ~o.kept_async /\ o.futout = in.rettext
+    [] c = "send-by-default"     -> ~in.nosend /\ ~in.asynctrait => o.w_send /\ (o.expanded => o.futsend)
+    \* "required to be Send": a body that is not Send is rejected
+    [] c = "send-is-required"    -> ~in.nosend /\ ~in.asynctrait => ~o.w_nonsend_body
+    \* with ?Send no Send requirement is imposed: non-Send bodies are accepted and callers cannot assume Send
+    [] c = "optout-honoured"     -> in.nosend /\ ~in.asynctrait => o.w_nonsend_body /\ ~o.w_send /\ (o.expanded => ~o.futsend)
+    [] c = "async-trait-kept-and-reapplied" -> in.asynctrait /\ o.expanded => o.kept_async /\ o.attr_on_trait /\ o.attr_on_impls
+C12_Fail(in, o) == { c \in C12_Conj : ~C12_Holds(c, in, o) }
 =============================================================================
